@@ -55,7 +55,7 @@ def REF_EMPTY():
 
 def gen_cases(seed, tier):
     rng = np.random.default_rng([seed, 12])
-    n = 300 if tier == "quick" else 10000
+    n = 300 if tier == "quick" else 20000
     cases = []
     for i in range(n):
         nv = int(rng.choice([1, 2, 3, 4, 5], p=[0.1, 0.25, 0.3, 0.2, 0.15]))
